@@ -856,7 +856,13 @@ func TestC02(t *testing.T) {
 			case pi != nil:
 				r.Report("empties", cell, key+"panic@"+pi.Frame, pi.Value, cell)
 				return
-			case err != nil || len(b) == 0:
+			case err != nil:
+				return
+			case len(b) == 0:
+				// nothing was written: right for a list whose members all say nothing, not for a value that has an id
+				if it, isItem := x.(ap.Item); isItem && !ap.IsNil(it) && !it.IsCollection() && len(it.GetLink()) > 0 {
+					r.Report("empties", cell, key+"nothing-written", fmt.Sprintf("a value with the id %s was written as nothing", it.GetLink()), cell)
+				}
 				return
 			}
 			root, dups, _, perr := oracle.ParseJSON(b)
@@ -966,49 +972,59 @@ func TestC02(t *testing.T) {
 		}
 		// the same for every item-typed and list-typed property of every type, the value holding everything else its type can hold:
 		// whatever follows a property that turned out to have nothing to say still has to be joined correctly
-		for _, st := range vocab.StructTypes {
-			x := vocab.Everything(st, false)
-			for _, f := range vocab.Fields(st) {
-				if f.Kind != vocab.KItem && f.Kind != vocab.KItems {
-					continue
+		// ... and the value holding nothing else but its id and type: a property that has nothing to say takes nothing away from what
+		// was written before it
+		for _, base := range []string{"rest", "alone"} {
+			for _, st := range vocab.StructTypes {
+				x := vocab.Everything(st, false)
+				if base == "alone" {
+					p := reflect.New(st)
+					p.Elem().FieldByName("ID").SetString("https://example.com/alone")
+					p.Elem().FieldByName("Type").SetString(string(vocab.DefaultType[st.Name()]))
+					x = p.Interface().(ap.Item)
 				}
-				fv := reflect.ValueOf(x).Elem().Field(f.Index)
-				orig := reflect.New(fv.Type()).Elem()
-				orig.Set(fv)
-				for _, cb := range combos {
-					fv.Set(orig)
-					if len(cb) > 2 {
+				for _, f := range vocab.Fields(st) {
+					if f.Kind != vocab.KItem && f.Kind != vocab.KItems {
 						continue
 					}
-					total++
-					var names, wantIDs []string
-					l := ap.ItemCollection{}
-					for _, k := range cb {
-						l = append(l, alphabet[k].mk())
-						names = append(names, alphabet[k].name)
-						if alphabet[k].id != "" {
-							wantIDs = append(wantIDs, alphabet[k].id)
+					fv := reflect.ValueOf(x).Elem().Field(f.Index)
+					orig := reflect.New(fv.Type()).Elem()
+					orig.Set(fv)
+					for _, cb := range combos {
+						fv.Set(orig)
+						if len(cb) > 2 {
+							continue
 						}
+						total++
+						var names, wantIDs []string
+						l := ap.ItemCollection{}
+						for _, k := range cb {
+							l = append(l, alphabet[k].mk())
+							names = append(names, alphabet[k].name)
+							if alphabet[k].id != "" {
+								wantIDs = append(wantIDs, alphabet[k].id)
+							}
+						}
+						hname := st.Name() + "." + f.Name + "+" + base
+						cell := hname + " [" + strings.Join(names, ",") + "]"
+						if !r.WantCell(cell) {
+							continue
+						}
+						done++
+						switch {
+						case f.Kind == vocab.KItems:
+							fv.Set(reflect.ValueOf(l))
+						case len(l) == 1 && l[0] == nil:
+							fv.Set(reflect.Zero(fv.Type()))
+						case len(l) == 1:
+							fv.Set(reflect.ValueOf(l[0]))
+						default:
+							fv.Set(reflect.ValueOf(l))
+						}
+						verify(cell, hname, f.Term, x, names, wantIDs, len(cb), done)
 					}
-					hname := st.Name() + "." + f.Name + "+rest"
-					cell := hname + " [" + strings.Join(names, ",") + "]"
-					if !r.WantCell(cell) {
-						continue
-					}
-					done++
-					switch {
-					case f.Kind == vocab.KItems:
-						fv.Set(reflect.ValueOf(l))
-					case len(l) == 1 && l[0] == nil:
-						fv.Set(reflect.Zero(fv.Type()))
-					case len(l) == 1:
-						fv.Set(reflect.ValueOf(l[0]))
-					default:
-						fv.Set(reflect.ValueOf(l))
-					}
-					verify(cell, hname, f.Term, x, names, wantIDs, len(cb), done)
+					fv.Set(orig)
 				}
-				fv.Set(orig)
 			}
 		}
 		r.Cells(total, done)
